@@ -1,5 +1,5 @@
 (* C18 — Converting between formats through the registry/CLI preserves the dataset: how the type is resolved. *)
-From RK Require Import Base Registry RegistryProofs.
+From RK Require Import Base Registry RegistryProofs NQ NQProofs NQRoundTrip NQPipe.
 From Coq Require Import Permutation.
 
 (* the decoder type found for a resource does not depend on the order in which Go iterates the file extension map,
@@ -33,3 +33,12 @@ Example C18_example :
   exts_consistent [(s2b ".ld", s2b "a"); (s2b ".jsonld", s2b "b"); (s2b "ld", s2b "c")] = false /\
   file_ext (s2b "dir.d/file.tar.gz") = s2b ".gz" /\ file_ext (s2b "dir.d/file") = [].
 Proof. vm_compute. repeat split; reflexivity. Qed.
+
+(* the conversions among N-Triples and N-Quads, over ALL inputs: decode any text (whatever the reader's end, also up to
+   a syntax error), write the statements again with either setting of the ASCII option — as N-Quads, or as N-Triples
+   when the input was read as N-Triples —, decode that: exactly the same quads, and no error *)
+Theorem C18_nt_nq_conversion_preserves : forall nq nq' ascii inp t, (nq = true -> nq' = true) ->
+  let qs := map st_quad (fst (decode nq inp t)) in
+  exists stmts, decode nq' (drs (encode ascii qs)) TEof = (stmts, VOk) /\ map st_quad stmts = qs.
+Proof. exact pipe_preserves. Qed.
+Print Assumptions C18_nt_nq_conversion_preserves.
